@@ -4,6 +4,8 @@
 mod c14;
 #[cfg(kani)]
 mod bencode_ref;
+#[cfg(kani)]
+mod c14q;
 
 #[cfg(kani)]
 pub fn backtrace_stub() -> std::backtrace::Backtrace {
